@@ -526,7 +526,8 @@ func (streamSetSelf *StreamSetDef[T, R]) Union(input *StreamSetDef[T, R]) *Strea
 		}
 	}
 
-	return result
+	// the streams carried over unchanged must not stay shared with the operands
+	return result.Clone()
 }
 
 // Intersection Get the Intersection with this StreamSet and an another StreamSet
@@ -549,7 +550,8 @@ func (streamSetSelf *StreamSetDef[T, R]) Intersection(input *StreamSetDef[T, R])
 		}
 	}
 
-	return result
+	// the streams carried over unchanged must not stay shared with the operands
+	return result.Clone()
 }
 
 // MinusStreams Minus the Stream values by their keys(keys will not be changed but Stream values will)
